@@ -498,6 +498,7 @@ def core_rules(rep):
                f"{tbl}", h.loc())
         # (c) the mode is threaded unchanged through the walkers (and their closures)
         nthread = 0
+        edges = set()
         for fam in FAMILY:
             f = core.fn(fam)
             rep.saw(f)
@@ -511,10 +512,12 @@ def core_rules(rep):
                     else:   # a closure: the mode is a captured variable of the walker (its only Deallocate value, see (a))
                         ok = o.get("kind") == "arg" and o.get("n") == 1
                     nthread += 1
+                    edges.add((noidx(g.npath), cl.callee.split("::")[-1]))
                     rep.ob("R3.2", f"{noidx(g.npath)} hands its own mode to {cl.callee.split('::')[-1]}",
                            ok, f"mode argument originates from {({k: v for k, v in o.items() if k in ('kind', 'n', 'place')})}",
                            g.loc(cl.bb))
-        rep.floor("R3.2", "calls between walkers carrying the mode", nthread, 30)
+        # distinct caller -> callee edges (merging identical arms must not look like a lost site)
+        rep.floor("R3.2", "caller -> callee edges between walkers carrying the mode", len(edges), EDGES_MIN)
         # (d) DropHandle only under what.handles()
         sites = []
         for p, f in core.fns.items():
@@ -700,6 +703,7 @@ BACKENDS = {
 }
 QUICK_BACKENDS = ["rust", "c"]
 PRED = "abi::guest_export_needs_post_return"
+EDGES_MIN = 14
 
 
 def walk_ifs(root):
